@@ -607,11 +607,14 @@ impl Writer {
     /// Updates the active file ID and open a new data file with the new active ID.
     #[tracing::instrument(level = "debug", skip(self))]
     fn new_active_datafile(&mut self, fileid: u64) -> Result<(), Error> {
-        self.active_fileid = fileid;
-        self.writer = LogWriter::new(log::create(utils::datafile_name(
+        // Create the file first: if that fails we must keep writing to (and indexing under) the
+        // current active file.
+        let writer = LogWriter::new(log::create(utils::datafile_name(
             self.ctx.conf.path.as_path(),
-            self.active_fileid,
+            fileid,
         ))?)?;
+        self.active_fileid = fileid;
+        self.writer = writer;
         self.written_bytes = 0;
         Ok(())
     }
